@@ -280,7 +280,10 @@ def generate(rng, tier, profile='default'):
                 else rng.randrange(len(series)))
         ops.append({'op': 'set_x', 'o': o, 's': pick,
                     'as': rng.choice(('list', 'array', 'array', 'tuple',
-                                      'pyarray', 'series'))})
+                                      'pyarray', 'series', 'lazy'))})
+        if ops[-1]['as'] == 'lazy':
+          ops[-1]['lazy_q'] = rng.choice(('tests_ok', 'corr', 'required_impact',
+                                          'bbtest', 'aatest', 'dwtest'))
       elif r2 < 0.33:
         ops.append({'op': 'clear_x', 'o': o})
       elif r2 < 0.42:
@@ -338,6 +341,31 @@ def _container(np, vals, how):
     import pandas as pd  # pylint: disable=g-import-not-at-top
     return pd.Series(np.array(vals))
   return list(vals)
+
+
+class LazySeries:
+  """A series that materialises on demand -- and whose materialisation looks
+  at the diagnostics object it is being assigned to (a report that prints the
+  current correlation while it builds the next control series): a read NESTED
+  inside an assignment."""
+
+  def __init__(self, vals, target, quantity):
+    self._vals = list(vals)
+    self._target = target
+    self._quantity = quantity
+    self.reads = 0
+
+  def __len__(self):
+    return len(self._vals)
+
+  def __array__(self, dtype=None, copy=None):
+    import numpy as np  # pylint: disable=g-import-not-at-top
+    try:
+      getattr(self._target, self._quantity)
+      self.reads += 1
+    except Exception:  # pylint: disable=broad-except
+      pass
+    return np.array(self._vals, dtype=dtype)
 
 
 def _scribble(container, pos, value):
@@ -524,7 +552,11 @@ def execute(desc):
     ev = None
     if kind in ('set_x', 'set_y'):
       vals = series[op['s']]
-      value = _container(np, vals, op.get('as', 'list'))
+      if op.get('as') == 'lazy':
+        value = LazySeries(vals, obj, op.get('lazy_q', 'tests_ok'))
+        fault('read_nested_in_assignment')
+      else:
+        value = _container(np, vals, op.get('as', 'list'))
       which = kind[-1]
       try:
         if which == 'x':
@@ -563,12 +595,14 @@ def execute(desc):
         n_assign += 1
         if which == 'x':
           t.x = np.array(vals)
-          t.caller_x = value if not isinstance(value, (list, tuple)) else None
+          t.caller_x = value if not isinstance(
+              value, (list, tuple, LazySeries)) else None
           t.alias_x = False
         else:
           t.y = np.array(vals)
           t.x = None
-          t.caller_y = value if not isinstance(value, (list, tuple)) else None
+          t.caller_y = value if not isinstance(
+              value, (list, tuple, LazySeries)) else None
           t.caller_x = None
           t.alias_y = False
           t.alias_x = False
